@@ -322,7 +322,7 @@ pub fn run(tier: &str, seed: i64) -> Outcome {
                     return;
                 }
             };
-            let nodes = fresh.iter().filter_map(|l| l.strip_prefix("info nodes ")).filter_map(|x| x.trim().parse::<u64>().ok()).max().unwrap_or(0);
+            let nodes = crate::srch::info_nodes(&fresh).into_iter().max().unwrap_or(0);
             acc.max("entries stored by one deep measured search", nodes);
             // the prior game: a deep search, one more position of that game, then the reset
             let mut script = vec![format!("position fen {}", pf), format!("go depth {}", pd), "wait".to_string(), format!("position fen {}", pf), "go depth 2".to_string(), "wait".to_string(), "ucinewgame".to_string()];
